@@ -123,6 +123,16 @@ CHECKS["C07"] = (
     "identity, and for kd>5 the constant is within 2e-3 (degree-9 Taylor bound). Spectrum wavenumber/group velocity/"
     "wavelength/wave speed call the solvers with (2 pi f, depth_p or +inf for missing depth).", "DESIGN.md#c07",
     "Convergence within 10 iterations, positivity, monotonicity and asymptotes are NOT claimed (no delta-complete solver).")
+CHECKS["C05"] = (
+    "MEM2: for ARBITRARY real Lagrange multipliers (4 symbols) and uniform grids N in {4,6} (thorough 8), on every "
+    "argmin path of the overflow shift, mem2_directional_distribution is >= 0 and sum D dtheta == 1 (exp as positive "
+    "atoms); mem2_newton_solver returns zeros for a NaN guess, the guess distribution when approximate, and on every "
+    "other exit (linear solve replaced by an arbitrary vector, 1 iteration) the distribution of an iterate. MEM closed "
+    "form (N=4, symbolic moments): result is the unnormalised density over its discrete integral, sums to one and is "
+    ">= 0 wherever defined; the solver also searches for moments that put a pole on a grid direction (known finding). "
+    "estimate_directional_distribution gives each batch element the single-spectrum result times pi/180 for shapes "
+    "(nf,), (nt,nf), (nt,nx,nf); as_frequency_direction_spectrum integrates back to e(f) and carries time/position/depth.",
+    "DESIGN.md#c05", "That Newton/LM iterates stay finite and converge is NOT claimed.")
 NA = {}
 
 ALL = [f"C{i:02d}" for i in range(1, 21)]
